@@ -6,7 +6,7 @@ from .common import FAIL, OK, Harness, P, guard, pick
 from asphalt.core import merge_config  # noqa: E402
 
 KEYS = ("a", "a.b")
-KINDS = ["absent", "int", "None", "list of pairs", "{}", "{x:int}", "{x:{y:int}}", "{'a.b':int, x:int}", "0", "[]", "{x:0}", "{x:False}"]
+KINDS = ["absent", "int", "None", "list of pairs", "{}", "{x:int}", "{x:{y:int}}", "{'a.b':int, x:int}", "0", "[]", "{x:0}", "{x:False}", "{502:int, x:int} (an int key, e.g. a status code or port)"]
 SYM_KINDS = [0, 1, 3, 5, 6]  # kinds used by the data-symbolic harness (leaves symbolic)
 
 
@@ -32,6 +32,8 @@ def build(kind, v):
         return {"x": 0}
     if kind == 11:
         return {"x": False}
+    if kind == 12:
+        return {502: v, "x": v + 2}
     return []
 
 
